@@ -20,7 +20,7 @@ from harness import core
 from harness.props import _crew_common as CC
 
 MANIFEST_ENTRY = {
-    "text": "Lean theorem C10 proves over the cost model built on the crew-day model: the daily row's cost = sum over methods of (deployment cost + upfront on the first day) + the program's own repair cost, natural-repair cost separate (row_identity); a per-site method's deployment cost of a day = sum over the surveys completed that day of the site's survey cost (method cost when the site cost is 0), for every deployment type, crew count and work plan (the four method classes share the loop; that they do is established by the four-class correspondence, not in Lean) incl. surveys that exhaust the crew, weather aborts and partial surveys (per_site_once), and exactly once over the days of a resumed survey (per_site_once_multiday); per-day methods pay unit cost x deployed crews, stationary x planned sites (per_day_once); over a run the upfront cost x crews is contained exactly once (upfront_once, upfront_amount); each program repair books its cost exactly once, on the day the leak turns repaired, natural repairs go to the other column (repair_once, repair_on_repair_day), and at program level the repair column of the rows sums over a run to the costs of exactly the leaks the program repaired (program_repairs_once); one step of the multi-day charge model is deployDay on that day's one-request plan (surveyCostRun_step_is_deployDay); a program without methods costs nothing (no_methods_no_cost). The model follows the code after two fix: commits (component-level per-site charge on completion; stationary component-level daily cost per planned site). Tied on every run to the real constructors, deploy_crews of all four method classes, the real row functions, the first_day wiring read from ldar_sim.py, and the real repair booking; the clauses are evaluated directly on implementation outputs; whole simulations compare timeseries cost columns with wrapper counts.",
+    "text": "Lean theorem C10 proves over the cost model built on the crew-day model: the daily row's cost = sum over methods of (deployment cost + upfront on the first day) + the program's own repair cost, natural-repair cost separate (row_identity); a per-site method's deployment cost of a day = sum over the surveys completed that day of the site's survey cost (method cost when the site cost is 0), for every deployment type, crew count and work plan (the four method classes share the loop; that they do is established by the four-class correspondence, not in Lean) incl. surveys that exhaust the crew, weather aborts and partial surveys (per_site_once), and exactly once over the days of a resumed survey (per_site_once_multiday); per-day methods pay unit cost x deployed crews, stationary x planned sites (per_day_once); over a run the upfront cost x crews is contained exactly once (upfront_once, upfront_amount) and is a function of the method parameters alone however many methods were built before from the same dict (upfront_frame); each program repair books its cost exactly once, on the day the leak turns repaired, natural repairs go to the other column (repair_once, repair_on_repair_day), and at program level the repair column of the rows sums over a run to the costs of exactly the leaks the program repaired (program_repairs_once); one step of the multi-day charge model is deployDay on that day's one-request plan (surveyCostRun_step_is_deployDay); a program without methods costs nothing (no_methods_no_cost). The model follows the code after two fix: commits (component-level per-site charge on completion; stationary component-level daily cost per planned site). Tied on every run to the real constructors, deploy_crews of all four method classes, the real row functions, the first_day wiring read from ldar_sim.py, and the real repair booking; the clauses are evaluated directly on implementation outputs; whole simulations compare timeseries cost columns with wrapper counts.",
     "design_ref": "DESIGN.md 5.10, 4.2, 4.1",
     "note": "trusted: Lean kernel + propext/Classical.choice/Quot.sound; hand-written model tied by sampled/exhaustive correspondence; harness adapters and stubs; costs are integers in the model (integer-valued floats are exact in the implementation); sampled repair cost lists (random.choice) are inputs; CSV float formatting (%.5f) of the timeseries is outside; 'monitored site-day' = planned site-day of a stationary method (DESIGN 5.10); 'deployed crew-day' = a crew sent to at least one site with workable weather, also when it then has no time left to travel (method.py:343-344 sets site_visit before the time test)",
     "technique": "Lean 4 proofs over the cost/crew/emission models + differential correspondence with the real classes + direct oracle (+ whole-run trace oracle)",
@@ -219,6 +219,45 @@ def stage_select(ctx):
     ctx.traces += len(cases)
 
 
+def stage_constructs(ctx):
+    """several real Method objects built one after another from the SAME properties dict, as
+    SimulationManager._setup_programs does for every program of every simulation: each must report
+    upfront x its crews, and the cost block must come out deep-equal to what went in"""
+    from harness.adapters import cost as K
+
+    cases = []
+    for _ in range(ctx.pick(250, 4000)):
+        nb = ctx.rng.randint(2, 5)
+        same = ctx.rng.random() < 0.6
+        b0 = (ctx.rng.choice(CC.CLASSES), ctx.rng.random() < 0.2, ctx.rng.choice([1, 2, 3, 5]))
+        builds = [b0 if same else (ctx.rng.choice(CC.CLASSES), ctx.rng.random() < 0.2, ctx.rng.choice([1, 2, 3, 5]))
+                  for _ in range(nb)]
+        kind = ctx.rng.random()
+        per_day, per_site = (0, ctx.rng.choice([5, 50])) if kind < 0.5 else (ctx.rng.choice([10, 1000]), ctx.rng.choice([None, 0, 7]))
+        cases.append((per_day, per_site, ctx.rng.choice([0, 100, 3000]), builds))
+    cases.append((0, 50, 3000, [("component", False, 3)] * 4))
+    model = core.LeanDriver("drv_cost").run([K.constructs_line(*c) for c in cases])
+    for c, ml in zip(cases, model):
+        res = K.impl_constructs(*c)
+        ctx.evaluations += 1
+        (ups, before, after) = res
+        inp = {"constructs": [c[0], c[1], c[2], [list(b) for b in c[3]]], "impl": {"upfront_costs": ups, "cost_block_before": before, "cost_block_after": after}}
+        try:
+            il = K.constructs_reply(res)
+        except AssertionError:
+            il = "non-integer"
+        if il != ml:
+            ctx.disagree("cost.constructs", {"constructs": inp["constructs"]}, ml, il)
+        exp = [c[2] * (1 if st else n) for (_, st, n) in c[3]]
+        if list(ups) != exp:
+            ctx.violate("C10:upfront:depends-on-earlier-constructions",
+                        "methods built one after another from the same parameters do not all report upfront x crews", inp)
+        if before != after:
+            ctx.violate("C10:upfront:method-parameters-modified", "constructing a method changed the shared cost parameters", inp)
+        ctx.nontrivial.add(("constructs", c[2] > 0, len(c[3]), len(set(c[3])) == 1, max(n for (_, _, n) in c[3]) > 1))
+    ctx.traces += len(cases)
+
+
 def stage_mday(ctx):
     from harness.adapters import cost as K
 
@@ -390,7 +429,7 @@ def wholerun_oracle(ctx):
 
 def run(ctx):
     ctx.rule = ("cost blocks: per_day in {-1,0,2,10} x per_site in {absent,-1,0,3,50} x upfront x deployment x crews "
-                "(exhaustive, 4 classes); method days: the F5 family (survey that exhausts the crew, weather abort, "
+                "(exhaustive, 4 classes); sequences of 2..5 constructions from one shared properties dict; method days: the F5 family (survey that exhausts the crew, weather abort, "
                 "partial, site-cost override, stationary) for each class + random work plans in three sizes with "
                 "explicit cost blocks; multi-day: random histories of one survey per class; rows: random method lists "
                 "x first-day flag x repair costs, programs of 1..6 days with the first_day wiring read from ldar_sim.py; "
@@ -398,6 +437,7 @@ def run(ctx):
                 "configurations. non-trivial = distinct (stage, class, cost type, outcome shape) keys")
     core.lean_stage(ctx, MODULE, FILE, drivers=["drv_cost", "drv_crew"])
     stage_select(ctx)
+    stage_constructs(ctx)
     stage_mday(ctx)
     stage_multiday(ctx)
     stage_rows(ctx)
@@ -419,6 +459,16 @@ def replay(ctx, data):
         print("impl :", K.mday_reply(r), "| reports", r.reports, "| crews", r.crews)
         print("model:", D.run([K.mday_line(case)])[0])
         oracle_mday(ctx, case, r)
+    elif "constructs" in inp:
+        c = inp["constructs"]
+        case = (c[0], c[1], c[2], [tuple(b) for b in c[3]])
+        res = K.impl_constructs(*case)
+        print("impl : upfront costs", res[0], "| cost block before", res[1], "after", res[2])
+        print("model:", D.run([K.constructs_line(*case)])[0])
+        if list(res[0]) != [case[2] * (1 if st else n) for (_, st, n) in case[3]]:
+            ctx.violate("C10:upfront:depends-on-earlier-constructions", "upfront depends on earlier constructions", inp)
+        if res[1] != res[2]:
+            ctx.violate("C10:upfront:method-parameters-modified", "shared cost parameters modified", inp)
     elif "select" in inp:
         c = tuple(inp["select"])
         cls = inp.get("cls", "method")
